@@ -363,7 +363,15 @@ func (t *table) getWhere() goexpr.Expr {
 }
 
 func (t *table) truncateBefore() time.Time {
-	return t.db.clock.Now().Add(-1 * t.RetentionPeriod)
+	now := t.db.clock.Now()
+	if now.IsZero() {
+		// A virtual clock that hasn't seen any point yet (e.g. right after a
+		// restart): nothing can have expired. Going back from the zero time would
+		// overflow the duration arithmetic in encoding.RoundTimeUntilDown and
+		// truncate everything.
+		return now
+	}
+	return now.Add(-1 * t.RetentionPeriod)
 }
 
 func (t *table) backfillTo() time.Time {
